@@ -12,6 +12,9 @@ use crate::router::RouterConfig;
 use dot_graph::{Graph, Node as GraphNode};
 use serde::Serialize;
 use std::cmp::Ordering;
+#[cfg(kani)]
+use crate::verif_shim::map::HashMap;
+#[cfg(not(kani))]
 use std::collections::HashMap;
 use std::fmt::Debug;
 #[cfg(feature = "dot")]
